@@ -84,6 +84,10 @@ pub fn gen_spec(r: &mut Rng, naming: &str) -> (String, bool) {
 
 pub const NAMINGS: [&str; 4] = ["num", "numd", "ts", "tsd"];
 
+/// TimestampsDirect + append onto `.restart-NNNN` siblings: generated again since the `fix:`
+/// (transition switch: FVH_LIFT_TSD=0 keeps the old guard)
+fn lift_tsd() -> bool { std::env::var("FVH_LIFT_TSD").as_deref() == Ok("1") }
+
 pub fn gen_c01(tier: &str, seed: u64) -> Vec<Vec<String>> {
     let mut root = Rng::new(seed ^ 0xC01);
     let mut cases = Vec::new();
@@ -296,7 +300,7 @@ pub fn gen_hist(o: &Opts, r: &mut Rng, k: u64, tier: &str) -> Vec<String> {
             //   tsd + append after same-second restart files (base file is re-opened)
             //   (it needs `.restart-NNNN` files, i.e. two files started within one second: histories in
             //   which every operation has its own second cannot produce them and keep the append)
-            if naming == "tsd" && append && !distinct { append = false; }
+            if naming == "tsd" && append && !distinct && !lift_tsd() { append = false; }
             if distinct { clock.epoch += 1; }
             c.push(format!("RESTART {}", cfg_line(&rot, append, cap, symlink, has_suffix)));
             written_since_start = false;
@@ -409,7 +413,7 @@ fn gen_c06_same_second_runs(tier: &str, seed: u64) -> Vec<Vec<String>> {
             if run > 0 {
                 c.push("SHUT".into());
                 c.push("READ".into());
-                c.push(format!("RESTART {}", cfg_line(&rot, naming != "tsd" && r.chance(1, 3), None, false, has_suffix)));
+                c.push(format!("RESTART {}", cfg_line(&rot, (naming != "tsd" || lift_tsd()) && r.chance(1, 3), None, false, has_suffix)));
             }
             for _ in 0..r.range(1, 3) {
                 c.push(format!("W {} {now} -", hex(&record(seq, r.range(2, 12)))));
@@ -749,7 +753,7 @@ pub fn gen_c11(tier: &str, seed: u64) -> Vec<Vec<String>> {
                     // a newly started logger on the same directory
                     // (TimestampsDirect + append onto `.restart-NNNN` siblings is the known finding
                     //  C06-tsd-append-after-restart-files: kept out of the random stream)
-                    let append = r.chance(1, 2) && naming != "tsd";
+                    let append = r.chance(1, 2) && (naming != "tsd" || lift_tsd());
                     let mut cl2 = Clock { epoch: clock.epoch + *r.pick(&[0i64, 1, 70]), small: false };
                     c.push(format!("RESTART {}", cfg_line(&rot, append, None, symlink, has_suffix)));
                     let mut s2 = seq + 1;
@@ -784,7 +788,7 @@ pub fn gen_c11(tier: &str, seed: u64) -> Vec<Vec<String>> {
             }
             pre.push("SHUT".into());
             cl.epoch += 2;
-            pre.push(format!("RESTART {}", cfg_line(&backlog_rot, r.chance(1, 2) && naming != "tsd", None, symlink, has_suffix)));
+            pre.push(format!("RESTART {}", cfg_line(&backlog_rot, r.chance(1, 2) && (naming != "tsd" || lift_tsd()), None, symlink, has_suffix)));
             let victim = hex(&record(sq, r.range(2, 16)));
             let vnow = cl.tick(&mut r);
             for p in points.iter().filter(|p| p.starts_with("compress") || p.starts_with("cleanup")) {
@@ -796,7 +800,7 @@ pub fn gen_c11(tier: &str, seed: u64) -> Vec<Vec<String>> {
                     c.push(format!("CW {victim} {vnow} {p} {occ}"));
                     c.push("SNAP".into());
                     let mut cl2 = Clock { epoch: cl.epoch + *r.pick(&[1i64, 2, 70]), small: false };
-                    c.push(format!("RESTART {}", cfg_line(&backlog_rot, r.chance(1, 2) && naming != "tsd", None, symlink, has_suffix)));
+                    c.push(format!("RESTART {}", cfg_line(&backlog_rot, r.chance(1, 2) && (naming != "tsd" || lift_tsd()), None, symlink, has_suffix)));
                     let mut s2 = sq + 1;
                     for _ in 0..r.range(3, 7) {
                         cl2.epoch += 1;
